@@ -371,11 +371,13 @@ def hostile_cases(draw, only=None):
         obs = []
         for _ in range(draw(st.integers(1, 3))):
             kind = draw(st.sampled_from(["STANDARD", "DAYLIGHT"]))
-            body = [f"BEGIN:{kind}", "DTSTART:" + draw(st.sampled_from(["00010101T000000", "00010101T000000", "99991231T235959", "99991231T235959", "19700101T000000", "00011231T235959", "99990101T000000", "20380119T031408"])),
+            body = [f"BEGIN:{kind}", "DTSTART:" + draw(st.sampled_from(["00010101T000000", "00010101T000000", "99991231T235959", "99991231T235959", "19700101T000000", "00011231T235959", "99990101T000000", "20380119T031408", "19700101T000000", "20370101T000000"])),
                     "TZOFFSETFROM:" + draw(st.sampled_from(["+0100", "-0100", "+1400", "-1200", "+0000", "+2359", "-2359", "+235959"])),
                     "TZOFFSETTO:" + draw(st.sampled_from(["+0100", "-0100", "+1400", "-1200", "+0000", "+2359", "-2359"]))]
             body += draw(st.lists(st.sampled_from(["TZNAME:X", "RRULE:FREQ=YEARLY;COUNT=3", "RRULE:FREQ=YEARLY;UNTIL=99991231T235959Z", "RRULE:FREQ=YEARLY;BYMONTH=12;BYDAY=-1SU",
-                                                    "RDATE:99991231T235959", "RDATE:00010101T000000", "RRULE:FREQ=YEARLY;INTERVAL=5000"]), max_size=2, unique=True))
+                                                    "RDATE:99991231T235959", "RDATE:00010101T000000", "RRULE:FREQ=YEARLY;INTERVAL=5000",
+                                                    # many recurrences of one observance next to few of the other (cost of pairing them up)
+                                                    "RRULE:FREQ=DAILY", "RRULE:FREQ=DAILY", "RRULE:FREQ=WEEKLY", "RRULE:FREQ=DAILY;UNTIL=20371231T000000Z", "RRULE:FREQ=MONTHLY;BYMONTHDAY=1,15"]), max_size=2, unique=True))
             obs += body + [f"END:{kind}"]
         ev = ["BEGIN:VEVENT", "DTSTART;TZID=custom:" + draw(st.sampled_from(["20200101T120000", "00010101T000000", "99991231T235959"])), "END:VEVENT"]
         tzblock = ["BEGIN:VTIMEZONE", "TZID:custom"] + obs + ["END:VTIMEZONE"]
